@@ -462,6 +462,7 @@ func contains(a iapdAnswer, p *net.IPNet) *dhcpv6.OptIAPrefix {
 func Exec(c Case) (res core.Result) {
 	defer func() {
 		if r := recover(); r != nil {
+			core.HarnessPanic(r)
 			// a panic in the handler is C01's business; here it ends the case
 			res = core.Result{Classes: []string{"abandoned:panic"}}
 			if c.Mode == "C08" || c.Mode == "C09" {
@@ -843,6 +844,7 @@ func (m *model) runConcurrent(h handler.Handler6, scripts [][]Msg) *core.Violati
 			defer wg.Done()
 			defer func() {
 				if r := recover(); r != nil {
+					core.HarnessPanic(r)
 					mu.Lock()
 					if viol == nil {
 						viol = core.Violate("C08/panic", "handler panicked in concurrent phase: %v", r)
